@@ -24,7 +24,7 @@ RULE = ('weights: strictly monotonic sources (ascending and descending, 2..7 nod
         'against the Lean weights, numpy.interp and a linear profile; bpchsigma: GEOS-Chem interpSigma on generated 47-level '
         'files incl. thin surface layers outside the source midpoints; non-trivial = at least one '
         'target strictly between two nodes (weights) / at least one target layer overlapping two source '
-        'layers (sigma)')
+        'layers (sigma); 1-D coordinates of magnitude 2^17..2^30 with a target of the same length shifted by half a step; the weights applied through interpvars along the first / second dimension of a 4-D variable; interpSigma targets that are a subset of the source edges (layers of unequal thickness merged)')
 ASSUMPTIONS = ['scipy.interpolate.interp1d linear evaluation and numpy.interp are exact on the generated '
                'dyadic grids (power-of-two source spacings)',
                'theorems are over Q; IEEE rounding on non-dyadic grids is outside the proof']
